@@ -209,7 +209,7 @@ func (fileEngine) Gen(rng *rand.Rand, tier string, i int) any {
 			} else {
 				// written in place, or installed by renaming a new file over the name (what editors,
 				// sed -i and deployment tools do), with or without a backup link to the old file
-				c.Steps = append(c.Steps, []string{"good", "good", "good:rename", "good:rename-keep", "good:rename-old-mtime", "good:rename-then-edit", "good:rename-then-edit", "good:recreate"}[rng.Intn(8)])
+				c.Steps = append(c.Steps, []string{"good", "good", "good:rename", "good:rename-keep", "good:rename-old-mtime", "good:rename-then-edit", "good:rename-then-edit", "good:recreate", "good:retarget"}[rng.Intn(9)])
 			}
 		}
 		c.Steps = append(c.Steps, []string{"good", "good:rename", "good:rename-keep"}[rng.Intn(3)], "good")
@@ -517,6 +517,7 @@ func runFileRefresh(ctx *fw.Ctx, c *fileCase) {
 	case 2: // an unclean spelling of the same path
 		confPath = "{DIR}//./leases.txt"
 	}
+	curName := "leases.txt" // the file the configured path means at the moment (changes when a link is re-pointed)
 	chain := []PlugConf{{"file", []string{confPath, "autorefresh"}}}
 	if v6 {
 		j.V6 = chain
@@ -553,7 +554,15 @@ func runFileRefresh(ctx *fw.Ctx, c *fileCase) {
 		}
 		if strings.HasPrefix(st, "good") {
 			r := req(0, xid)
-			r.Write = &FileWrite{Name: "leases.txt", Content: versionFile(v6, c.Macs, next, ""), Rename: strings.HasPrefix(st, "good:rename"), KeepOld: st == "good:rename-keep"}
+			r.Write = &FileWrite{Name: curName, Content: versionFile(v6, c.Macs, next, ""), Rename: strings.HasPrefix(st, "good:rename"), KeepOld: st == "good:rename-keep"}
+			if st == "good:retarget" && c.Seed%4 == 1 {
+				// the configured path is a symbolic link: the new version is a new file under another name and
+				// the link is re-pointed to it; from now on that file is the lease file
+				r.Write.Rename = false
+				r.Write.Retarget, r.Write.Link = fmt.Sprintf("leases.v%d.txt", next), "conf/leases.link"
+				curName = r.Write.Retarget
+				ctx.Count("file.refresh.link_retargeted", 1)
+			}
 			if st == "good:recreate" {
 				r.Write.Create, r.Write.RemoveFirst = true, true
 				r.Write.GapUs = []int{0, 150, 2000, 20000}[int(uint64(c.Seed>>9)%4)] * (1 + len(j.Reqs)%2)
@@ -574,7 +583,7 @@ func runFileRefresh(ctx *fw.Ctx, c *fileCase) {
 			add(r, exp{kind: "progress", ver: next, prev: cur, mac: 0, mid: mid, emptyOK: st == "good:recreate"})
 			// re-arm once: rewrite the same content and give it the other half of the bound
 			r2 := req(0, xid)
-			r2.Write = &FileWrite{Name: "leases.txt", Content: versionFile(v6, c.Macs, next, "")}
+			r2.Write = &FileWrite{Name: curName, Content: versionFile(v6, c.Macs, next, "")}
 			r2.Poll = &PollSpec{Until: hex.EncodeToString(versionAddr(v6, next, 0)), MaxPolls: 200, IntervalMs: 50}
 			add(r2, exp{kind: "rearm", ver: next, prev: cur, mac: 0})
 			// the whole mapping must have been replaced: every other MAC serves the new version too
@@ -587,7 +596,7 @@ func runFileRefresh(ctx *fw.Ctx, c *fileCase) {
 		} else {
 			// malformed version: some lines already carry the next version's addresses
 			r := req(0, xid)
-			r.Write = &FileWrite{Name: "leases.txt", Content: versionFile(v6, c.Macs, next, strings.TrimPrefix(st, "bad:"))}
+			r.Write = &FileWrite{Name: curName, Content: versionFile(v6, c.Macs, next, strings.TrimPrefix(st, "bad:"))}
 			r.Poll = &PollSpec{Until: hex.EncodeToString(versionAddr(v6, cur, 0)), MaxPolls: 25, IntervalMs: 10, Hold: true}
 			add(r, exp{kind: "hold", ver: cur, prev: cur, mac: 0})
 			for i := 1; i < c.Macs; i++ {
@@ -616,12 +625,12 @@ func runFileRefresh(ctx *fw.Ctx, c *fileCase) {
 			b = a + fmt.Sprintf("%s %s\n", net.HardwareAddr(refreshMac(0)), versionAddr(v6, next+1, 0))
 		}
 		ra := req(0, xid)
-		ra.Write = &FileWrite{Name: "leases.txt", Content: a, Rename: true}
+		ra.Write = &FileWrite{Name: curName, Content: a, Rename: true}
 		ra.Poll = &PollSpec{Until: hex.EncodeToString(versionAddr(v6, next, 0)), MaxPolls: 200, IntervalMs: 50}
 		add(ra, exp{kind: "progress", ver: next, prev: cur, mac: 0})
 		cur = next
 		rb := req(0, xid)
-		rb.Write = &FileWrite{Name: "leases.txt", Content: b}
+		rb.Write = &FileWrite{Name: curName, Content: b}
 		if c.Tail == "continue" {
 			rb.Poll = &PollSpec{Until: hex.EncodeToString(versionAddr(v6, next+1, 0)), MaxPolls: 200, IntervalMs: 50}
 			add(rb, exp{kind: "progress", ver: next + 1, prev: cur, mac: 0})
@@ -653,10 +662,10 @@ func runFileRefresh(ctx *fw.Ctx, c *fileCase) {
 				fmt.Fprintf(&sb, "0a:%02x:%02x:%02x:00:01 10.%d.%d.%d\n", byte(i>>16), byte(i>>8), byte(i), 100+i>>16, byte(i>>8), byte(i))
 			}
 		}
-		j.Reqs = append(j.Reqs, ChainReq{Write: &FileWrite{Name: "leases.txt", Content: sb.String(), Create: true}})
+		j.Reqs = append(j.Reqs, ChainReq{Write: &FileWrite{Name: curName, Content: sb.String(), Create: true}})
 		exps = append(exps, exp{kind: "noop"})
 		r := req(0, xid)
-		r.Write = &FileWrite{Name: "leases.txt", Content: versionFile(v6, c.Macs, next+1, ""), Create: true}
+		r.Write = &FileWrite{Name: curName, Content: versionFile(v6, c.Macs, next+1, ""), Create: true}
 		r.Poll = &PollSpec{Until: hex.EncodeToString(versionAddr(v6, next+1, 0)), MaxPolls: 150, IntervalMs: 20, Hold: true}
 		bigSmall = len(j.Reqs)
 		add(r, exp{kind: "big-small", ver: next + 1, prev: next, mac: 0})
@@ -668,7 +677,7 @@ func runFileRefresh(ctx *fw.Ctx, c *fileCase) {
 	// the server goes on serving one whole mapping, the old or the new
 	if c.Seed%3 == 0 && next <= 26 {
 		r := req(0, xid)
-		r.Write = &FileWrite{Name: "leases.txt", Content: versionFile(v6, c.Macs, next, ""), Rename: true, NoFDs: true}
+		r.Write = &FileWrite{Name: curName, Content: versionFile(v6, c.Macs, next, ""), Rename: true, NoFDs: true}
 		r.Poll = &PollSpec{Until: hex.EncodeToString(versionAddr(v6, next, 0)), MaxPolls: 10, IntervalMs: 10}
 		add(r, exp{kind: "no-descriptors", ver: next, prev: cur, mac: 0})
 		for i := 1; i < c.Macs; i++ {
